@@ -34,7 +34,7 @@ J World::to_json() const {
     }
     j.set("utmp", ut);
     j.set("login_errno", login_errno); j.set("login_name", login_name);
-    j.set("env", jstrs(env)); j.set("environ_null", environ_null); if (at_secure) j.set("at_secure", true);
+    j.set("env", jstrs(env)); j.set("environ_null", environ_null); if (at_secure) j.set("at_secure", true); if (ctype_tr) j.set("ctype_tr", true);
     j.set("cwd", cwd); j.set("cwd_errno", cwd_errno); j.set("hostname", hostname);
     j.set("clock_us", (long long)clock_us); j.set("clock_step_us", (long long)clock_step_us);
     J fs = J::obj();
@@ -88,7 +88,7 @@ void World::from_json(const J &j) {
     }
     login_errno = (int)j.geti("login_errno", d.login_errno); login_name = j.gets("login_name", d.login_name);
     if (j.has("env")) env = jstrs(j.at("env"));
-    environ_null = j.getb("environ_null", false); at_secure = j.getb("at_secure", false);
+    environ_null = j.getb("environ_null", false); at_secure = j.getb("at_secure", false); ctype_tr = j.getb("ctype_tr", false);
     cwd = j.gets("cwd", d.cwd); cwd_errno = (int)j.geti("cwd_errno", 0); hostname = j.gets("hostname", d.hostname);
     clock_us = j.geti("clock_us", d.clock_us); clock_step_us = j.geti("clock_step_us", d.clock_step_us);
     if (j.has("files")) {
